@@ -241,9 +241,14 @@ func runTicker(p tickerPlan, g *gate, sh *stressHook) *tickerResult {
 		}
 		res.stopped = true
 		// offset of the Stop call from the earliest moment the next firing was due
-		res.stopOff, res.stopOffOK = res.stopBegin.Sub(base.Add(curD-curJ)), true
+		if curD <= time.Second {
+			res.stopOff, res.stopOffOK = res.stopBegin.Sub(base.Add(curD-curJ)), true
+		}
 		// 4. watch the channel: at least 5 (d + jitter), plus the longest hold of the pause point
-		res.watch = 5*(curD+curJ) + 3*ms
+		res.watch = 20 * ms // periods of years: nothing is due
+		if curD <= time.Second {
+			res.watch = 5*(curD+curJ) + 3*ms
+		}
 		tm := time.NewTimer(res.watch)
 	watch:
 		for {
@@ -350,6 +355,12 @@ func judgeTicker(c *vkit.Case, res *tickerResult, group string) bool {
 	}
 	r.Count("ticker", "New/Reset with jitter == 0", nj0)
 	r.Count("ticker", "lives", 1)
+	for _, rg := range res.regimes {
+		if rg.D >= maxD/4 {
+			r.Count("ticker", "lives with d >= MaxInt64/4", 1)
+			break
+		}
+	}
 	if res.pan != nil {
 		if res.panWhere == "Stop()" {
 			// Not demanded by the statement; recorded only.
@@ -592,6 +603,57 @@ func stressCases(r *vkit.Report) {
 		}
 		if r.WantSample() && c.Index%17 == 2 {
 			r.Sample(results[0].witness())
+		}
+	})
+}
+
+// ---------------------------------------------------------------------------------------------
+// Extreme periods. Judged: every (d, jitter) with d + jitter <= MaxInt64 (the arithmetic of the
+// next firing time stays in range): New / Reset must not panic, nothing may tick, Stop works.
+// Beyond that (jitter >= 1<<62 ns, or d + jitter > MaxInt64) see overflowDomain.
+
+// judgeOverflowDomain: the pairs below satisfy the documented precondition (d > 0, 0 <= jitter < d)
+// but the clean tree mishandles them (int64(jitter*2) overflows -> rand.Int63n panics; d + offset
+// overflows -> the timer is armed in the past and ticks at once). Periods of 146+ years; reported
+// as a suspected defect, recorded, not judged until the library is repaired.
+const judgeOverflowDomain = true
+
+func tickerExtremes(r *vkit.Report) {
+	type dj struct{ d, j time.Duration }
+	q := maxD / 4
+	judged := []dj{{q, 0}, {q, 1}, {q, q / 2}, {q, q - 1}, {maxD / 2, 0}, {maxD / 2, maxD/2 - 1}, {maxD, 0}, {maxD, 1}, {maxD - 1, 0}, {1 << 62, 1<<62 - 1}}
+	r.Cases("ticker-extreme", 2*len(judged), 1, func(c *vkit.Case) {
+		x := judged[c.Index%len(judged)]
+		var p tickerPlan
+		if c.Index < len(judged) {
+			// create huge, Reset to a grid point, read ticks, Stop
+			gd, gj := drawGrid(c.Rand)
+			p = tickerPlan{d0: x.d, j0: x.j, phases: []phase{{imm: true, reset: true, d: gd, j: gj}, {ticks: 2, off: 0}}}
+		} else {
+			// create on the grid, Reset to huge after a tick, Stop
+			gd, gj := drawGrid(c.Rand)
+			p = tickerPlan{d0: gd, j0: gj, phases: []phase{{ticks: 1, imm: true, reset: true, d: x.d, j: x.j}, {imm: true}}}
+		}
+		judgeTicker(c, runTicker(p, nil, nil), "ticker-extreme")
+	})
+	over := []dj{{maxD, maxD / 2}, {maxD, maxD/2 + 1}, {maxD, maxD - 1}, {maxD/2 + 2, maxD/2 + 1}, {maxD - 1, maxD / 4 * 3}}
+	r.Cases("ticker-overflow", len(over), 1, func(c *vkit.Case) {
+		x := over[c.Index]
+		p := tickerPlan{d0: x.d, j0: x.j, phases: []phase{{imm: true}}}
+		res := runTicker(p, nil, nil)
+		if judgeOverflowDomain {
+			judgeTicker(c, res, "ticker-overflow")
+			return
+		}
+		const tab = "suspected defect in the overflow domain (reported, not judged)"
+		key := fmt.Sprintf("NewJitterTicker(%d ns, %d ns): ", int64(x.d), int64(x.j))
+		switch {
+		case res.pan != nil:
+			r.Count(tab, key+"panicked: "+res.pan.Msg, 1)
+		case len(res.ticks) > 0:
+			r.Count(tab, key+"ticked within 20 ms", 1)
+		default:
+			r.Count(tab, key+"no panic, no tick (this time)", 1)
 		}
 	})
 }
